@@ -17,6 +17,7 @@ base_ctx = dict(
         (r'receiverCallback_\.construct\(get_stop_token\(receiver_\), stop_callback\{this\}\)', 'EV_cb_construct(self, CB_RECEIVER)'),
         (r'receiverCallback_\.destruct\(\)', 'EV_cb_destruct(self, CB_RECEIVER)'),
         (r'stokenCallback_\.destruct\(\)', 'EV_cb_destruct(self, CB_STOKEN)'),
+        (r'stopSource_\.stop_requested\(\)', 'EV_children_stop_requested(self)'),
         (r'stopSource_\.request_stop\(\)', 'EV_stop_children(self)'),
         (r'unifex::set_done\(std::move\(\*receiver\)\)', 'EV_set_done(receiver)'),
     ],
